@@ -5,7 +5,8 @@
    reference implementation is the differential check ./check C07 (checks 701-703). *)
 From Coq Require Import ZArith List Bool Lia.
 From DG Require Import CaseFormat ProtoWireRef ProtoWireRefProofs ProtoMsg ProtoMsgProofs
-  ProtoGeneric ProtoGenericAlg ProtoGenericDom ProtoGenericProofs ProtoGenericRefine.
+  ProtoGeneric ProtoGenericAlg ProtoGenericDom ProtoGenericKids ProtoGenericProofs ProtoGenericRefine
+  ProtoGenericRefine2 ProtoGenericIface ProtoGenericRefine3.
 Import ListNotations.
 Local Open Scope Z_scope.
 
@@ -265,6 +266,148 @@ Example C07_example :
   plookup_root S_ex [77] m_ex [PField 2; PIndex 2] = LNotFound true /\
   plookup_root S_ex [77] m_ex [PField 6; PIntKey (-1)] = LFound LSingular (TScalar 2) 6 (VScalar 2 1065353216) /\
   node_raw LSingular 6 (VScalar 2 1065353216) = [0; 0; 128; 63].
+Proof. vm_compute. repeat split. Qed.
+
+(* ------------------------------------------------------------------------------------------------------------------
+   REFINEMENT OF THE OTHER READ APIs (iteration / children listing, bulk lookup, conversion to Go values), in the same
+   style and over the same kind of computable domains as C07_get_by_path_refines_plookup.  As coded = the models of
+   model/ProtoGenericAlg.v with every recorded repair applied (all_fixes).
+   Domains (model/ProtoGenericKids.v):
+     root_domain S root m          = schema_okb S && schema_packed_okb S && wf_msg S root m && |encode_msg m| < 2^63
+     node_domain S lbl t num v     = schema_okb S && schema_packed_okb S && wf_fld S lbl t v && label_okb lbl t num
+                                     && |node bytes| < 2^63
+   schema_packed_okb: no repeated numeric field declared [packed = false] (the listing, Indexes and Interface code decides
+   "packed" from the element type alone: outside, see C07_interface_unpacked_numeric_refuted); label_okb: the descriptor's
+   packed flag is that default, field number in 1..2^29-1, map keys string or of a kind ReadInt reads.
+   node_of lbl t num v is the node every lookup returns for the value (type, bytes, element count as proved for getByPath). *)
+
+(* (1) children_cover (mirror of C01's children_cover and spans lemmas): the as-coded Load(recurse=false) / Children listing of
+   the ROOT message, of a LIST node and of a MAP node is exactly the list spec_children (one child per present field /
+   element / entry, in wire order, with the node type and the bytes node_raw of that child), the scan ends exactly at the
+   end of the payload; the children's spans (kid_field_span / kid_elem_span / kid_entry_span: node bytes behind the tag
+   or entry header the parent puts in front) are consecutive and their concatenation IS the payload; and the listed
+   children are exactly the elements the one-step spec lookup enumerates: for every step, the child listed under that
+   step (find_kid) = the element plookup finds (absent <-> not listed).
+   NOT covered: nested MESSAGE nodes - the as-coded scan of a non-root message node starts at the length prefix and
+   fails (finding 708, open: no repair in the tree); see C07_children_nested_message_as_coded. *)
+Theorem C07_children_cover :
+  forall S root m, root_domain S root m = true ->
+  a_load all_fixes S false (root_node root (encode_msg m)) =
+    TOk (spec_children S LSingular (TMsg root) (VMsg m)) (plen (encode_msg m)) /\
+  payload_of_children S LSingular (TMsg root) 0 (VMsg m) = Some (encode_msg m) /\
+  (forall n, find_kid (PField n) (spec_children S LSingular (TMsg root) (VMsg m)) =
+             child_of_lres (PField n) (plookup_root S root m [PField n])).
+Proof. exact c07_children_root. Qed.
+Print Assumptions C07_children_cover.
+
+Theorem C07_children_cover_list :
+  forall S p t num q vs, node_domain S (LRepeated p) t num (VList q vs) = true ->
+  a_load all_fixes S false (node_of (LRepeated p) t num (VList q vs)) =
+    TOk (spec_children S (LRepeated p) t (VList q vs)) (plen (node_raw (LRepeated p) num (VList q vs))) /\
+  payload_of_children S (LRepeated p) t num (VList q vs) = Some (node_raw (LRepeated p) num (VList q vs)) /\
+  (forall i, find_kid (PIndex i) (spec_children S (LRepeated p) t (VList q vs)) =
+             child_of_lres (PIndex i) (plookup S (LRepeated p) t num (VList q vs) [PIndex i])).
+Proof. exact c07_children_list. Qed.
+Print Assumptions C07_children_cover_list.
+
+Theorem C07_children_cover_map :
+  forall S kk t num kvs, node_domain S (LMap kk) t num (VMap kvs) = true ->
+  a_load all_fixes S false (node_of (LMap kk) t num (VMap kvs)) =
+    TOk (spec_children S (LMap kk) t (VMap kvs)) (plen (node_raw (LMap kk) num (VMap kvs))) /\
+  payload_of_children S (LMap kk) t num (VMap kvs) = Some (node_raw (LMap kk) num (VMap kvs)) /\
+  (forall st, is_key_req st = true ->
+             find_kid st (spec_children S (LMap kk) t (VMap kvs)) =
+             child_of_lres st (plookup S (LMap kk) t num (VMap kvs) [st])).
+Proof. exact c07_children_map. Qed.
+Print Assumptions C07_children_cover_map.
+
+(* (2) bulk lookup: GetMany / Node.Fields / Indexes / Gets as coded (Gets with repair 707) = the MAP OF SINGLE LOOKUPS:
+   slot i holds the node type and bytes of the element the one-step lookup of request i finds, and stays empty (None)
+   exactly when that lookup finds nothing (absent field / index out of range / absent key / undeclared field) - for ANY
+   request order.  Requests (reqs_okb): non-empty, all of the node's kind (field numbers / indexes / keys in the Go int
+   range) and pairwise DISTINCT: the Go loops (and the model: set_first) fill only the FIRST slot naming a child, so a
+   repeated request leaves its later slots empty - C07_get_many_duplicates_as_coded; the check compares those against
+   the as-coded model.  Stale results in a recycled tree (ClearDirtyValues, seeded C07-7) are outside this functional
+   statement: every call here starts from empty slots; the harness checks freshness on recycled trees (api 7/8). *)
+Theorem C07_get_many_is_map_of_lookups :
+  forall S root m reqs, root_domain S root m = true -> reqs_okb is_field_req reqs = true ->
+  a_getmany all_fixes S (root_node root (encode_msg m)) reqs =
+  MOk (map (lookup_out S LSingular (TMsg root) 0 (VMsg m)) reqs).
+Proof. exact c07_getmany_root. Qed.
+Print Assumptions C07_get_many_is_map_of_lookups.
+
+(* the same on every container node a lookup returns: nested messages (Fields), lists packed or not (Indexes), maps with
+   string or integer keys (Gets) *)
+Theorem C07_get_many_is_map_of_lookups_node :
+  forall S lbl t num v reqs,
+  node_domain S lbl t num v = true -> is_container v = true -> reqs_okb (req_kind lbl) reqs = true ->
+  a_getmany all_fixes S (node_of lbl t num v) reqs = MOk (map (lookup_out S lbl t num v) reqs).
+Proof. exact c07_getmany_node. Qed.
+Print Assumptions C07_get_many_is_map_of_lookups_node.
+
+(* (3) conversion: Value.Interface() as coded (repair 709: float) = the Go-value image to_gval of the decoded element, for
+   EVERY kind: zig-zag / sign-extended / unsigned / fixed / float / bool scalars, strings, bytes, messages (map by field
+   number), packed and unpacked lists, maps with string keys (map[string]) and integer keys (map[int], the key as the Go
+   int ReadInt yields), nested to any depth; fuel = nesting height of the value. *)
+Theorem C07_interface_refines :
+  forall S root m fuel, root_domain S root m = true -> (height (VMsg m) <= fuel)%nat ->
+  a_interface fuel all_fixes S (root_node root (encode_msg m)) = IOk (to_gval (VMsg m)).
+Proof. exact c07_interface_root. Qed.
+Print Assumptions C07_interface_refines.
+
+Theorem C07_interface_refines_node :
+  forall S lbl t num v fuel, node_domain S lbl t num v = true -> (height v <= fuel)%nat ->
+  a_interface fuel all_fixes S (node_of lbl t num v) = IOk (to_gval v).
+Proof. exact c07_interface_node. Qed.
+Print Assumptions C07_interface_refines_node.
+
+(* non-vacuity: the message of C07_refinement_example (every field shape, non-ascending order) is in the domain; what the
+   three theorems say there *)
+Example C07_read_apis_example :
+  let buf := encode_msg m_rf in
+  let mp := VMap [(KStr [120], VMsg [(1, VScalar 5 1)]); (KStr [], VMsg [])] in
+  root_domain S_rf [77] m_rf = true /\
+  (match a_load all_fixes S_rf false (root_node [77] buf) with
+   | TOk kids rd => Some (map (fun c => match c with ATree st t raw _ => (st, t, plen raw) end) kids, rd)
+   | _ => None end) =
+    Some ([(PField 6, 20, 12); (PField 5, 19, 6); (PField 2, 19, 5); (PField 7, 19, 6); (PField 4, 20, 15);
+           (PField 1, 5, 10); (PField 3, 11, 5)], 61) /\ plen buf = 61 /\
+  reqs_okb is_field_req [PField 2; PField 9; PField 1] = true /\
+  a_getmany all_fixes S_rf (root_node [77] buf) [PField 2; PField 9; PField 1] =
+    MOk [Some (19, [18; 3; 1; 216; 4]); None; Some (5, [253; 255; 255; 255; 255; 255; 255; 255; 255; 1])] /\
+  node_domain S_rf (LMap 9) (TMsg [77]) 4 mp = true /\
+  a_load all_fixes S_rf false (node_of (LMap 9) (TMsg [77]) 4 mp) =
+    TOk [ATree (PStrKey [120]) 11 [2; 8; 1] []; ATree (PStrKey []) 11 [0] []] 15 /\
+  a_getmany all_fixes S_rf (node_of (LMap 9) (TMsg [77]) 4 mp) [PStrKey []; PStrKey [121]; PStrKey [120]] =
+    MOk [Some (11, [0]); None; Some (11, [2; 8; 1])] /\
+  a_getmany all_fixes S_rf (node_of (LRepeated true) (TScalar 17) 2 (VList true [VScalar 17 (-1); VScalar 17 300]))
+            [PIndex 1; PIndex 2; PIndex 0] = MOk [Some (17, [216; 4]); None; Some (17, [1])] /\
+  height (VMsg m_rf) = 4%nat /\
+  a_interface 4 all_fixes S_rf (root_node [77] buf) =
+    IOk (GMapI [(6, GMapI [(4000000000, GF32 1065353216)]); (5, GList [GStr [104; 105]; GStr []]);
+                (2, GList [GInt (-1); GInt 300]); (7, GList [GMapI []; GMapI [(1, GInt 9)]]);
+                (4, GMapS [([120], GMapI [(1, GInt 1)]); ([], GMapI [])]); (1, GInt (-3));
+                (3, GMapI [(3, GMapI []); (1, GInt 7)])]).
+Proof. vm_compute. repeat split. Qed.
+
+(* the limits, as computed facts: a repeated request is answered in its first slot only; the listing of a NESTED
+   message node fails as coded (finding 708) where the spec lists two children; an unpacked numeric list ([packed=false],
+   outside schema_packed_okb) is not converted *)
+Example C07_get_many_duplicates_as_coded :
+  a_getmany all_fixes S_rf (root_node [77] (encode_msg m_rf)) [PField 2; PField 2] =
+    MOk [Some (19, [18; 3; 1; 216; 4]); None].
+Proof. vm_compute. reflexivity. Qed.
+Example C07_children_nested_message_as_coded :
+  let sub := VMsg [(3, VMsg []); (1, VScalar 5 7)] in
+  a_load all_fixes S_rf false (node_of LSingular (TMsg [77]) 3 sub) = TErr /\
+  spec_children S_rf LSingular (TMsg [77]) sub = [ATree (PField 3) 11 [0] []; ATree (PField 1) 5 [7] []].
+Proof. vm_compute. split; reflexivity. Qed.
+Example C07_interface_unpacked_numeric_refuted :
+  let S_u : schema := [mk_mdesc [77] [mk_fdesc 2 [98] [98] (LRepeated false) (TScalar 5)]] in
+  let m_u : pmsg := [(2, VList false [VScalar 5 7; VScalar 5 8])] in
+  schema_okb S_u = true /\ schema_packed_okb S_u = false /\ wf_msg S_u [77] m_u = true /\
+  a_interface 5 all_fixes S_u (root_node [77] (encode_msg m_u)) = IErr /\
+  to_gval (VMsg m_u) = GMapI [(2, GList [GInt 7; GInt 8])].
 Proof. vm_compute. repeat split. Qed.
 
 (* ================================================================== (G) kind tables from the Go source *)
